@@ -2357,6 +2357,29 @@ package decimal128
 //@ hyp forall k in n..m - 1: a[k] >= 48 && a[k] <= 57
 //@ holds pst(a, n) == 7 || pst(a, n) == 8 || pst(a, n) == 9 ==> dv(a, m) == dv(a, n) && nfd(a, m) == nfd(a, n) && esg(a, m) == esg(a, n) && (m > n ==> pst(a, m) == 9) && (m == n ==> pst(a, m) == pst(a, n))
 //@ props C06
+// Rounding a representable value is exact (closes the round trips of C06/C13: String's postcondition is
+// Parse's precondition for V = the value of d = C x 10^(E-6176); Parse's postcondition is RndOK for that V).
+// With x = rs(V, e) the value in units of the result's exponent e: for e <= E, x = C x pw10(E - e) is an
+// integer T (rs_pw10n) and rnd_exact_int applies; for e > E, x x pw10(e - E) = C with pw10 >= 10 (rs_pw10n,
+// pw10n_pos), so 10 x <= C by scale_le and rnd_exact_frac applies. In both cases the result equals V.
+//@ lemma scale_le
+//@ forall x real, P int, C int
+//@ hyp x >= 0 && P >= 10 && x * real(P) == real(C)
+//@ holds 10.0 * x <= real(C)
+//@ props C05 C06 C13
+//@ lemma rnd_exact_int
+//@ forall rm int, neg bool, T int, c int, e int
+//@ hyp 0 <= rm && rm <= 5 && 0 <= e && 0 <= T
+//@ hyp RndOK(rm, neg, real(T), c, e)
+//@ holds T == c
+//@ props C05 C06 C13
+//@ lemma rnd_exact_frac
+//@ forall rm int, neg bool, x real, C int, c int, e int
+//@ hyp 0 <= rm && rm <= 5 && 0 <= C && C <= M && 1 <= e && x >= 0
+//@ hyp 10.0 * x <= real(C)
+//@ hyp RndOK(rm, neg, x, c, e)
+//@ holds x == real(c)
+//@ props C05 C06 C13
 //@ lemma usc_sticky
 //@ forall a bytes, n int, m int
 //@ induct m from n
